@@ -3,9 +3,9 @@ package props
 import (
 	"errors"
 	"fmt"
-	"time"
 	"sort"
 	"strings"
+	"time"
 
 	z "github.com/Oudwins/zog"
 
